@@ -149,9 +149,6 @@ class CandleMonitor:
                     lenient = np.array_equal(g, inp[i])
                     tr_i = i - self.w
                     interior = self.fast and tr_i >= 1 and (tr_i % self.chunk) != 0
-                    if lenient and interior:
-                        c.count('c07_fast_interior_not_normalised')
-                        continue   # fast simulator normalises only chunk edges (see DESIGN 5/C07)
                     c.violate('C07', '1m-differs',
                               f'C07|1m-differs|fast={int(self.fast)}|equals-raw-input={int(lenient)}|warm={int(i < self.w)}',
                               {'hook': hook, 'symbol': sym, 'row': i, 'got': g.tolist(), 'want': norm[i].tolist(),
